@@ -94,6 +94,8 @@ def step (o : Obj) (ws : List String) : Obj × String :=
   | ["tp", x] => (o, fb (timePeriod (fOf x)))
   | ["sl", x] => (o, fb (sustainLevel (fOf x)))
   | ["notenew", n] => (o, toString (Quantizer.noteNew (natOf n)))
+  -- `impl From<u8> for Note` delegates to `Note::new`; the correspondence run checks that it still does
+  | ["notefrom", n] => (o, toString (Quantizer.noteNew (natOf n)))
   | ["cap", sr] => (o, match Ribbon.sampleRateToCapacity (natOf sr) with | some c => toString c | none => "PANIC")
   | _ =>
   match o, ws with
